@@ -6,6 +6,7 @@ MODES
   ret-temp     `return <expr>`           ->  `_ret_k = <expr>` ; `return _ret_k`
   attr-temp    `<obj>.<f> = <expr>`      ->  `_val_k = <expr>` ; `<obj>.<f> = _val_k`        (single-target stores only)
   not-swap     `if C: A else: B`         ->  `if not (C): B else: A`                        (plain if/else with a non-empty else that is not an elif chain)
+  swap-indep   `a = E1 ; b = E2`         ->  `b = E2 ; a = E1`                              (adjacent call-free assignments to locals that do not mention each other)
 """
 import ast, os, sys
 from concurrent.futures import ProcessPoolExecutor
@@ -55,7 +56,57 @@ class NotSwap(RetTemp):
         return n
 
 
-MODES = {"ret-temp": RetTemp, "attr-temp": AttrTemp, "not-swap": NotSwap}
+PURE_CALLS = {"len", "list", "set", "tuple", "sorted", "dict", "range", "frozenset", "str", "int", "float", "bool", "max", "min", "sum", "zip", "enumerate", "reversed"}
+
+
+def _pure(e):
+    for n in ast.walk(e):
+        if isinstance(n, ast.Call) and not (isinstance(n.func, ast.Name) and n.func.id in PURE_CALLS):
+            return False
+        if isinstance(n, (ast.Yield, ast.YieldFrom, ast.Await, ast.NamedExpr)):
+            return False
+    return True
+
+
+def _names(e, ctx):
+    return {n.id for n in ast.walk(e) if isinstance(n, ast.Name) and isinstance(n.ctx, ctx)}
+
+
+class SwapIndep(RetTemp):
+    """swap two adjacent assignments to plain local names whose right-hand sides are call-free (or call only pure builtins) and that do not mention each other's targets"""
+    def visit_Return(self, n): return n
+
+    def _swap(self, body):
+        i = 0
+        while i + 1 < len(body):
+            a, b = body[i], body[i + 1]
+            if all(isinstance(x, ast.Assign) and len(x.targets) == 1 and isinstance(x.targets[0], ast.Name) and _pure(x.value) for x in (a, b)):
+                ta, tb = a.targets[0].id, b.targets[0].id
+                if ta != tb and ta not in _names(b.value, ast.Load) and tb not in _names(a.value, ast.Load):
+                    body[i], body[i + 1] = b, a
+                    self.k += 1
+                    i += 2
+                    continue
+            i += 1
+
+    def generic_visit(self, node):
+        super().generic_visit(node)
+        for fld in ("body", "orelse", "finalbody"):
+            blk = getattr(node, fld, None)
+            if isinstance(blk, list) and blk and isinstance(blk[0], ast.stmt):
+                self._swap(blk)
+        return node
+
+    def visit_FunctionDef(self, n):
+        self.depth += 1
+        if self.depth > 1:
+            self.depth -= 1
+            return n
+        self.generic_visit(n); self.depth -= 1
+        return n
+
+
+MODES = {"ret-temp": RetTemp, "attr-temp": AttrTemp, "not-swap": NotSwap, "swap-indep": SwapIndep}
 
 
 def transform(src, fn_node, mode):
